@@ -94,3 +94,53 @@ def deviation_iter(shard, alphabet):
             if e1[1] == e2[1] and e1[0] != "ins" and e2[0] != "ins":
                 continue
             yield (e1, e2), apply_edits(base, [e1, e2])
+
+
+# ---------------------------------------------------------------------------------------------
+# exact token-edit balls (deviation bounding for short structured strings: names, values)
+
+
+def _neighbours(toks, alphabet):
+    n = len(toks)
+    for i in range(n):
+        yield toks[:i] + toks[i + 1 :]
+    for i in range(n + 1):
+        for a in alphabet:
+            yield toks[:i] + (a,) + toks[i:]
+    for i in range(n):
+        for a in alphabet:
+            if a != toks[i]:
+                yield toks[:i] + (a,) + toks[i + 1 :]
+
+
+def ball_shards(nbases, k, nstripes=16):
+    return [("ball", b, k, s, nstripes) for b in range(nbases) for s in range(nstripes if k >= 2 else 1)]
+
+
+def ball_iter(base, alphabet, shard):
+    """All token tuples within k single-token edits (delete / insert / replace) of `base`, each at most
+    once per shard; the first-level neighbours are striped over the shards."""
+    _, _, k, stripe, nstripes = shard
+    base = tuple(base)
+    seen = {base}
+    if stripe == 0:
+        yield base
+    if k == 0:
+        return
+    level1 = []
+    for t in _neighbours(base, alphabet):
+        if t not in seen:
+            seen.add(t)
+            level1.append(t)
+    if stripe == 0:
+        yield from level1
+    frontier = [t for i, t in enumerate(level1) if i % nstripes == stripe]
+    for _ in range(k - 1):
+        nxt = []
+        for t in frontier:
+            for u in _neighbours(t, alphabet):
+                if u not in seen:
+                    seen.add(u)
+                    nxt.append(u)
+                    yield u
+        frontier = nxt
